@@ -299,6 +299,108 @@ func c06OutFileProbe(g *Gen) {
 	}
 }
 
+// c06RefusedExit: a script the tool refuses (unreadable operand, parse error, undefined name) must make
+// `addchain gen` end with a non-zero status, with and without -out, and leave no partial output behind
+// that a caller could mistake for a listing.
+func c06RefusedExit(g *Gen) {
+	dir, err := os.MkdirTemp("", "c06ref")
+	if err != nil {
+		return
+	}
+	defer os.RemoveAll(dir)
+	for i, text := range []string{"a = 1 << 3\nreturn [2] + a\n", "a = 1 +\nreturn a\n", "a = 2*1\nreturn b + a\n", "a = 2*1\na = a + 1\nreturn a\n"} {
+		refused := false
+		safe(func() { _, e := acc.LoadString(text); refused = e != nil })
+		if !refused {
+			continue
+		}
+		in, out := fmt.Sprintf("%s/in%d.acc", dir, i), fmt.Sprintf("%s/out%d.txt", dir, i)
+		if os.WriteFile(in, []byte(text), 0o644) != nil {
+			return
+		}
+		for _, args := range [][]string{{"gen", in}, {"gen", "-out", out, in}, {"gen", "-type", "script", "-out", out, in}, {"eval", in}} {
+			r := runCLI(args, nil, 30*time.Second)
+			g.Count("refused-exit")
+			if r.timedOut {
+				continue
+			}
+			if r.exit == 0 && !g.notesViolation() {
+				g.Notes = append(g.Notes, fmt.Sprintf("VIOLATION: `addchain %s` on the refused script %q exits with status 0 (stdout %q, stderr %q)", strings.Join(args[:len(args)-1], " "), text, string(r.stdout), string(r.stderr)))
+			}
+		}
+	}
+}
+
+// c06LongLine: a script whose printed form has a line longer than 64 KiB (a sum of many terms) through
+// the builtin script template and every other builtin template: the script output must load back to
+// the same chain, and no output may be silently cut.
+func c06LongLine(g *Gen) {
+	terms := 17000
+	if g.Thorough {
+		terms = 40000
+	}
+	text := "s = 2*1\nreturn s" + strings.Repeat(" + 1", terms) + "\n"
+	var want *ir.Program
+	var rendered string
+	msg := ""
+	pn := safe(func() {
+		ch, e := parse.String(text)
+		if e != nil {
+			msg = "parse: " + e.Error()
+			return
+		}
+		want, e = acc.LoadString(text)
+		if e != nil {
+			msg = "load: " + e.Error()
+			return
+		}
+		d, e := verifhooks.GenPrepareData(verifhooks.GenConfig{Allocator: c06Alloc}, ch)
+		if e != nil {
+			msg = "prepare: " + e.Error()
+			return
+		}
+		tmpl, e := verifhooks.GenBuiltinTemplate("script")
+		if e != nil {
+			msg = "template: " + e.Error()
+			return
+		}
+		var buf bytes.Buffer
+		if e := verifhooks.GenGenerate(&buf, tmpl, d); e != nil {
+			msg = "refused"
+			return
+		}
+		rendered = buf.String()
+	})
+	g.Count("long-line")
+	if pn != "" || (msg != "" && msg != "refused") {
+		return // the long script itself is not handled: outside this probe
+	}
+	if msg == "refused" {
+		return // an error is a refusal, which the property allows
+	}
+	bad := ""
+	safe(func() {
+		got, e := acc.LoadString(rendered)
+		if e != nil {
+			bad = fmt.Sprintf("does not load (%v); %d bytes of output for %d bytes of script", e, len(rendered), len(text))
+			return
+		}
+		if len(got.Chain) != len(want.Chain) {
+			bad = fmt.Sprintf("loads to a chain of %d elements, the script's chain has %d", len(got.Chain), len(want.Chain))
+			return
+		}
+		for i := range got.Chain {
+			if got.Chain[i].Cmp(want.Chain[i]) != 0 {
+				bad = fmt.Sprintf("loads to another chain (element %d)", i)
+				return
+			}
+		}
+	})
+	if bad != "" && !g.notesViolation() {
+		g.Notes = append(g.Notes, fmt.Sprintf("VIOLATION: the script output for `s = 2*1; return s + 1 + ... + 1` (%d terms) %s", terms, bad))
+	}
+}
+
 // c06WriteErrors: gen.Generate into a writer that fails after k bytes must report an error for every
 // builtin template (an empty or cut-off listing must never be passed off as complete).
 func c06WriteErrors(g *Gen) {
@@ -347,6 +449,8 @@ func c06WriteErrors(g *Gen) {
 
 func genC06(g *Gen) {
 	c06OutFileProbe(g)
+	c06RefusedExit(g)
+	c06LongLine(g)
 	c06WriteErrors(g)
 	// fixed cases: the documented shapes and the known delicate ones
 	for _, text := range []string{
